@@ -64,15 +64,25 @@ def validQualified (s : Str) : Bool :=
 /-- every character is in the property's alphabet, and there is at least one -/
 def IdOk (k : Str) : Prop := k ≠ [] ∧ k.all isIdChar = true
 
-/-- first and last character alphanumeric -/
-def EdgeAlnum (s : Str) : Prop := headAlnum s = true ∧ lastAlnum s = true
+/-- **Exactly the gap of finding F6.** The name part of the V2 key begins with the first character
+    of the id's safe form, and ends with its last character only when the id is not cut-and-hashed
+    (at most 63 characters); otherwise it ends with the digest suffix. So: first character
+    alphanumeric, and — for ids of at most 63 characters — last character alphanumeric.
+    (`valid_name_v2_exact` proves this is necessary and sufficient.) -/
+def EdgeOk (k : Str) : Prop :=
+  headAlnum (safeKey k) = true ∧ (k.length ≤ 63 → lastAlnum (safeKey k) = true)
+
+/-- the same for the V1 key, which is cut-and-hashed as soon as prefix + `/` + id exceed 63 -/
+def EdgeOkV1 (p : Str) (k : Str) : Prop :=
+  headAlnum (safeKey k) = true ∧ ((pre p).length + k.length ≤ 63 → lastAlnum (safeKey k) = true)
 
 /-- a usable hash suffix: 1..62 characters of the name alphabet, alphanumeric at the end
     (the real one is `-` plus six base64 characters ending in `A`, `Q`, `g` or `w`) -/
 def GoodSfx (s : Str) : Prop := 1 ≤ s.length ∧ s.length ≤ 62 ∧ s.all isNameChar = true ∧ lastAlnum s = true
 
 instance (k : Str) : Decidable (IdOk k) := by unfold IdOk; infer_instance
-instance (s : Str) : Decidable (EdgeAlnum s) := by unfold EdgeAlnum; infer_instance
+instance (k : Str) : Decidable (EdgeOk k) := by unfold EdgeOk; infer_instance
+instance (p k : Str) : Decidable (EdgeOkV1 p k) := by unfold EdgeOkV1; infer_instance
 instance (s : Str) : Decidable (GoodSfx s) := by unfold GoodSfx; infer_instance
 
 /-- a status storage field that does not live under `metadata` (nor is `kind`): the default is
